@@ -4,48 +4,76 @@ from translators import tr_c04
 
 PID = "C04"
 CLAIM = True
-MANIFEST_TEXT = ("Lean 4 theorems about a message-level model of RemoteIndices::rebuild (merge-join unpackIndices with rewind and "
-                 "fromOurSelf rule, two-list unpackIndices, the four unpackCreateRemote cases, self message, ring rounds or hinted "
-                 "neighbours in any arrival order, sequence-number bookkeeping), for every process count P>=1, every decomposition "
-                 "with at most one entry per global index and set, one or two index sets per rank (also mixed), ignorePublic and "
-                 "includeSelf arbitrary: rank p holds for every other rank q exactly send = published(src_p) joined with "
-                 "published(tgt_q) and receive = published(tgt_p) joined with published(src_q), carrying q's attribute and p's own "
-                 "pair (rebuild_spec), lists and ranks strictly ascending (rebuild_sorted), no empty neighbour, self entries only "
-                 "in the documented cases (self_entry_cases), result independent of the arrival order and equal to the ring result "
-                 "for covering hints; isSynced exactly while no referenced index set was resized (synced_iff).  Tier B: the merge-join "
-                 "with repeated global indices (unpack_spec) and one-set systems with repeated globals incl. the includeSelf self "
-                 "entry (rebuild_spec_repeated).  The model is run against the real class under mpirun -np 1..4 (quick) / 1..8 "
-                 "(thorough) on random distributed histories (resizes, deletes, rebuilds with both ignorePublic values, isSynced "
-                 "queries) with PMPI-permuted probe order; the harness oracle recomputes the set definition from the decomposition.")
+MANIFEST_TEXT = ("30 Lean 4 theorems about a two-layer model of Dune::RemoteIndices.  Per-rank layer (merge-join unpackIndices with "
+                 "rewind and fromOurSelf rule, two-list unpackIndices, the four unpackCreateRemote cases, self message, messages "
+                 "of the ring predecessors or of the hinted neighbours in any arrival order), for every process count P>=1, "
+                 "every decomposition with at most one entry per global index and set, one or two index sets per rank (also "
+                 "mixed), ignorePublic and includeSelf arbitrary: rank p holds for every other rank q exactly send = "
+                 "published(src_p) joined with published(tgt_q) and receive = published(tgt_p) joined with published(src_q), "
+                 "carrying q's attribute and p's own pair (rebuild_spec; spec read as the set of communication.tex: "
+                 "mem_spec_iff, spec_one_per_global), q appears iff something is shared (appears_iff, no_empty_neighbour, "
+                 "keys_are_ranks), p's send list mirrors q's receive list (send_recv_mirror), lists and ranks strictly "
+                 "ascending (rebuild_sorted), self entries only in the documented cases (self_entry_cases), result "
+                 "independent of the arrival order and equal to the ring result for covering hints.  Faithful layer (what the "
+                 "driver runs; its decisions and rank arithmetic are regenerated from remoteindices.hh on every run): buffer "
+                 "cursor and entry counts (unpack_cursor_refines, unpack_consumes_all), the ring as a two-buffer state machine "
+                 "over all ranks (ring_delivers: after k rounds rank p holds the original message of rank (p+P-k)%P under that "
+                 "label; ring_partners_agree; ring_buffers_distinct), the neighbour exchange at network level "
+                 "(consistent_hints_network: symmetric hints => senders = awaited ranks => the call returns), "
+                 "collective_refines (faithful collective buildRemote = per-rank model on every rank).  Histories: for every "
+                 "sequence of resizes (any rank/object/contents), free, setIndexSets and collective rebuilds, a rebuild that "
+                 "returns leaves every rank with the lists of the *current* index sets, also when it found nothing to do "
+                 "(history_rebuild_fresh, history_rebuild_spec); a rank stays in sync exactly while none of its own two index "
+                 "set objects is resized (world_synced_iff, synced_iff).  Tier B: merge-join and one-set systems with repeated "
+                 "global indices (unpack_spec, rebuild_spec_repeated).  The faithful model is run against the real class under "
+                 "mpirun -np 1..4 (quick) / 1..8 (thorough) on random distributed histories (collective and single-rank "
+                 "resizes, deletes, rebuilds with both ignorePublic values, free, setIndexSets with exchanged roles, "
+                 "setIncludeSelf, setNeighbours, isSynced queries, both constructors) with PMPI-permuted probe order; the "
+                 "harness oracle recomputes the set definition from the decomposition.")
 MANIFEST_NOTE = ("Trusted: Lean kernel (+propext/Classical.choice/Quot.sound), the hand-written model's fidelity (differential "
-                 "runs only, bounded: P<=8, <=14 globals per case), harness oracle, g++/ASan/UBSan, OpenMPI (reliable, pairwise "
-                 "FIFO; MPI_Pack layout exercised, not modelled).  Hypotheses: hints symmetric and naming another rank on every "
-                 "rank, or absent on every rank (anything else deadlocks in MPI and is not generated); all ranks take part in "
-                 "every rebuild; int overflow of seqNo not modelled; two-set systems assume no repeated globals (the two-list "
-                 "unpackIndices has no rewind).  With two index sets and includeSelf=true the code drops equal-attribute pairs "
-                 "from the self entry; the oracle accepts both readings, the model and self_entry_cases state the code's.  "
-                 "Describes the tree with fixes/C04_localdest_index.patch and fixes/C04_oneset_receives_twoset.patch applied.")
-TECHNIQUE = "Lean 4 proof over a message-level protocol model + differential correspondence under MPI with PMPI schedule steering and a set-theoretic oracle"
+                 "runs only, bounded: P<=8, <=70 globals per case), tools/translators/tr_c04.py (expression-level reading of "
+                 "22 decisions/formulas), harness oracle, g++/ASan/UBSan, OpenMPI (reliable, pairwise FIFO; MPI_Pack layout "
+                 "exercised, not modelled).  Hypotheses: hints symmetric and naming another rank on every rank, or absent on "
+                 "every rank (anything else deadlocks in MPI; modelled as `buildAll = none`, not executed); all ranks take "
+                 "part in every rebuild *and agree whether it is due*: a collective rebuild after a resize on only some ranks "
+                 "does not return in the real code (rank A communicates, rank B finds itself in sync and returns; reproduced "
+                 "with 2 ranks) — the model says `none`, the harness detects the disagreement beforehand and skips the call "
+                 "(observation b!).  setIncludeSelf/setNeighbours do not make the next rebuild() rebuild (lists of the old "
+                 "setting stay until a resize/free): modelled as is, excluded from the history theorem.  int overflow of "
+                 "seqNo not modelled; two-set systems assume no repeated globals (the two-list unpackIndices has no rewind).  "
+                 "With two index sets and includeSelf=true the code drops equal-attribute pairs from the self entry; the "
+                 "oracle accepts both readings, the model and self_entry_cases state the code's.  Describes the tree with "
+                 "fixes/C04_localdest_index.patch and fixes/C04_oneset_receives_twoset.patch applied.")
+TECHNIQUE = ("Lean 4 proof over a message-level protocol model in two layers (per-rank specification layer + faithful layer with "
+             "regenerated decisions, refinement proved) + differential correspondence under MPI with PMPI schedule steering "
+             "and a set-theoretic oracle")
 TRANSLATORS = [tr_c04.translate]
 HARNESS = dict(
     sources=["mpi_c04.cc", "pmpi_sched.cc"],
     mpi=True,
     repo_sources=["dune/common/exceptions.cc", "dune/common/stdstreams.cc"],
 )
-RULE = ("cases: random distributed histories for P ranks: each global index (<=14 per case, small range so ranks overlap) is "
-        "placed on a random non-empty subset of the ranks per set with random attribute/public flag/local index; systems with "
-        "one set, two sets, mixed, or one set with repeated globals; includeSelf none/all/random; ring or symmetric consistent "
-        "hints (superset of the sharing graph); history = resize, isSynced, rebuild<ign>, then up to 3 phases of "
-        "deletes/adds/resizes (source, target, unrelated)/re-rebuild with possibly flipped ignorePublic; distinct = distinct "
-        "op lines; non-trivial = oracle compared at least one non-empty expected list or an isSynced answer after a rebuild")
+RULE = ("cases: random distributed histories for P ranks: each global index (<=14 per case, one case in 14 with 20..70, small "
+        "range so ranks overlap) is placed on a random non-empty subset of the ranks per set with random attribute/public "
+        "flag/local index; systems with one set, two sets, mixed, or one set with repeated globals; includeSelf "
+        "none/all/random; five-argument or default constructor + setIndexSets; ring or symmetric hints (superset of the "
+        "sharing graph, one neighbour-mode case in 5 with sharing edges left out); history = resize (collective or rank by "
+        "rank), isSynced, rebuild<ign>, then up to 4 phases of: deletes/adds/resizes (source, target, unrelated; collective "
+        "or every rank singly)/re-rebuild with possibly flipped ignorePublic | rebuild without resize | unrelated resize | "
+        "free + rebuild | setIndexSets (roles kept or exchanged) + rebuild | setIncludeSelf | setNeighbours (also "
+        "ring<->neighbour) | resize on a strict subset of the ranks + rebuild (skipped: ranks disagree) + the rest + "
+        "rebuild; distinct = distinct op lines; non-trivial = oracle compared at least one non-empty expected list or an "
+        "isSynced answer after a rebuild")
 ASSUMPTIONS = [
-    "the Lean model lean/DuneVerif/Model/C04.lean is hand-written; its fidelity to remoteindices.hh rests on this differential run (P <= 8)",
+    "the Lean model (lean/DuneVerif/Model/C04.lean per-rank layer, Model/C04F.lean faithful layer) is hand-written; its fidelity to remoteindices.hh rests on this differential run (P <= 8) and, for 22 one-line decisions/formulas, on the translator tools/translators/tr_c04.py",
     "MPI is trusted: reliable, pairwise FIFO; MPI_Pack/MPI datatype layout of IndexPair is exercised, not modelled",
-    "theorems assume at most one entry per global index and index set on a rank (NoDupGlobals); repeated globals are covered by unpack_spec (merge-join level) and the differential runs",
-    "neighbour hints are symmetric and name at least one other rank on every rank, or are absent everywhere; every rank takes part in every rebuild",
+    "theorems assume at most one entry per global index and index set on a rank (NoDupGlobals); repeated globals are covered by unpack_spec / rebuild_spec_repeated (one-set systems) and the differential runs",
+    "neighbour hints are symmetric and name at least one other rank on every rank, or are absent everywhere (otherwise the model's collective buildAll is `none`; never executed)",
+    "every rank takes part in every rebuild and the ranks agree whether it is due (all or none resized / freed / changed ignorePublic); otherwise the real call does not return (model: `none`; harness: skipped, observation b!)",
     "the model describes the tree with fixes/C04_localdest_index.patch and fixes/C04_oneset_receives_twoset.patch applied (/repo commits aadf5bf, 6f17323)",
 ]
 TRUSTED = ["g++/libstdc++, ASan/UBSan, OpenMPI", "harness/mpi_c04.cc (generator, executor, set-definition oracle) + harness/pmpi_sched.cc",
+           "tools/translators/tr_c04.py (locating and parsing 22 expressions / statement lists of remoteindices.hh)",
            "Driver/C04.lean parsing/printing and the harness-protocol index-set bookkeeping"]
 
 
